@@ -1,3 +1,15 @@
+//! C06 (part 3): non-interference.  The real part of the result of + - * / does not depend
+//! on the derivative parts of the operands: two runs with the same real parts and independent
+//! symbolic derivative parts give bit-identical real parts.  Loop-free, full f64 domain
+//! including NaN, +-0, inf and subnormals (a NaN result is compared as "both NaN": the payload
+//! of an arithmetic NaN is unspecified).
+//!
+//! Solver: the proof obligation is "two copies of the same float multiplier/divider agree",
+//! which SAT back ends (cadical, kissat, minisat) do not finish in > 20 min; the SMT back end
+//! (cvc5, FP theory, hash-consing) discharges it in seconds.  These harnesses therefore carry
+//! `#[kani::solver(cvc5)]`.
+//! Flags: `--no-overflow-checks` (CBMC's NaN / float-overflow instrumentation would flag
+//! inf-inf, 0*inf, MAX*2 ... as failures; such inputs are *in* the domain here).
 use crate::util::*;
 use num_dual::*;
 
@@ -5,33 +17,92 @@ use num_dual::*;
 fn same_re(x: f64, y: f64) -> bool {
     b64(x) == b64(y) || (x.is_nan() && y.is_nan())
 }
-macro_rules! t {
-    ($name:ident, $solver:ident) => {
+
+macro_rules! nonint_harness {
+    ($name:ident, $sname:ident, $mk:expr) => {
+        /// dual (op) dual
         #[kani::proof]
-        #[kani::solver($solver)]
+        #[kani::solver(cvc5)]
         fn $name() {
-            let (mut a1, mut b1) = (any_dual64(), any_dual64());
-            let (mut a2, mut b2) = (any_dual64(), any_dual64());
-            let (ra, rb): (f64, f64) = (kani::any(), kani::any());
-            a1.re = ra;
-            a2.re = ra;
-            b1.re = rb;
-            b2.re = rb;
-            assert!(same_re((a1 * b1).re, (a2 * b2).re), "(a*b).re independent of derivative parts");
-        }
-    };
-}
-t!(x_mul_z3, z3);
-t!(x_mul_cvc5, cvc5);
-#[kani::proof]
-fn x_addsub() {
-            let (mut a1, mut b1) = (any_dual64(), any_dual64());
-            let (mut a2, mut b2) = (any_dual64(), any_dual64());
+            let (mut a1, mut b1) = ($mk, $mk);
+            let (mut a2, mut b2) = ($mk, $mk);
             let (ra, rb): (f64, f64) = (kani::any(), kani::any());
             a1.re = ra;
             a2.re = ra;
             b1.re = rb;
             b2.re = rb;
             assert!(same_re((a1 + b1).re, (a2 + b2).re), "(a+b).re independent of derivative parts");
-            assert!(same_re((a1 - b1).re, (a2 - b2).re), "(a+b).re independent of derivative parts");
+            assert!(same_re((a1 - b1).re, (a2 - b2).re), "(a-b).re independent of derivative parts");
+            assert!(same_re((a1 * b1).re, (a2 * b2).re), "(a*b).re independent of derivative parts");
+            assert!(same_re((a1 / b1).re, (a2 / b2).re), "(a/b).re independent of derivative parts");
+            // and it is the float operation on the real parts
+            assert!(same_re((a1 + b1).re, ra + rb), "(a+b).re == a.re + b.re");
+            assert!(same_re((a1 - b1).re, ra - rb), "(a-b).re == a.re - b.re");
+            assert!(same_re((a1 * b1).re, ra * rb), "(a*b).re == a.re * b.re");
+        }
+        /// dual (op) scalar
+        #[kani::proof]
+        #[kani::solver(cvc5)]
+        fn $sname() {
+            let mut a1 = $mk;
+            let mut a2 = $mk;
+            let (ra, s): (f64, f64) = (kani::any(), kani::any());
+            a1.re = ra;
+            a2.re = ra;
+            assert!(same_re((a1 + s).re, (a2 + s).re), "(a+s).re independent of derivative parts");
+            assert!(same_re((a1 - s).re, (a2 - s).re), "(a-s).re independent of derivative parts");
+            assert!(same_re((a1 * s).re, (a2 * s).re), "(a*s).re independent of derivative parts");
+            assert!(same_re((a1 / s).re, (a2 / s).re), "(a/s).re independent of derivative parts");
+            assert!(same_re((a1 + s).re, ra + s), "(a+s).re == a.re + s");
+            assert!(same_re((a1 - s).re, ra - s), "(a-s).re == a.re - s");
+            assert!(same_re((a1 * s).re, ra * s), "(a*s).re == a.re * s");
+            assert!(same_re((a1 / s).re, ra / s), "(a/s).re == a.re / s");
+        }
+    };
+}
+nonint_harness!(c06_nonint_dual64, c06_nonint_scalar_dual64, any_dual64());
+nonint_harness!(c06_nonint_dual2_64, c06_nonint_scalar_dual2_64, any_dual2_64());
+nonint_harness!(c06_nonint_hyperdual64, c06_nonint_scalar_hyperdual64, any_hyperdual64());
+nonint_harness!(c06_nonint_dual3_64_with_div_cvc5_abort, c06_nonint_scalar_dual3_64, any_dual3_64());
+
+/// Dual3: `+ - *` on the full domain.  `/` is split off (below) because CBMC's SMT2 back end
+/// aborts on `Dual3::div` ("flatten2bv of a non-constant FPA-encoded float is unsupported",
+/// caused by the `Option<f64>` produced by `F::from(-2.0).unwrap()` in that function) and the
+/// SAT back ends do not terminate on the full domain.
+#[kani::proof]
+#[kani::solver(cvc5)]
+fn c06_nonint_dual3_64() {
+    let (mut a1, mut b1) = (any_dual3_64(), any_dual3_64());
+    let (mut a2, mut b2) = (any_dual3_64(), any_dual3_64());
+    let (ra, rb): (f64, f64) = (kani::any(), kani::any());
+    a1.re = ra;
+    a2.re = ra;
+    b1.re = rb;
+    b2.re = rb;
+    assert!(same_re((a1 + b1).re, (a2 + b2).re), "(a+b).re independent of derivative parts");
+    assert!(same_re((a1 - b1).re, (a2 - b2).re), "(a-b).re independent of derivative parts");
+    assert!(same_re((a1 * b1).re, (a2 * b2).re), "(a*b).re independent of derivative parts");
+    assert!(same_re((a1 + b1).re, ra + rb), "(a+b).re == a.re + b.re");
+    assert!(same_re((a1 - b1).re, ra - rb), "(a-b).re == a.re - b.re");
+    assert!(same_re((a1 * b1).re, ra * rb), "(a*b).re == a.re * b.re");
+}
+
+/// Dual3 `/`, BOUNDED: real parts on the grid a.re in {-4..4}, b.re in {+-1,+-2,+-4,+-0.5};
+/// all derivative parts arbitrary f64 bit patterns.  Default SAT solver.
+#[kani::proof]
+fn c06_nonint_div_dual3_64_grid() {
+    let (mut a1, mut b1) = (any_dual3_64(), any_dual3_64());
+    let (mut a2, mut b2) = (any_dual3_64(), any_dual3_64());
+    let ia: i8 = kani::any();
+    kani::assume(-4 <= ia && ia <= 4);
+    let k: u8 = kani::any();
+    kani::assume(k < 8);
+    let rb = [1.0, -1.0, 2.0, -2.0, 4.0, -4.0, 0.5, -0.5][k as usize];
+    let ra = ia as f64;
+    a1.re = ra;
+    a2.re = ra;
+    b1.re = rb;
+    b2.re = rb;
+    assert!(same_re((a1 / b1).re, (a2 / b2).re), "(a/b).re independent of derivative parts");
+    assert!(same_re((a1 / b1).re, ra / rb), "(a/b).re == a.re / b.re on the grid");
 }
